@@ -132,6 +132,112 @@ func registerVrt(p *Program) {
 		fr.m.out.Assumes = append(fr.m.out.Assumes, concreteString(a[0]))
 		return nil
 	}
+	setup := func(fr *frame) *segState {
+		if fr.m.tsSetup == nil {
+			panic(unsupported{"tsgen registration intrinsic outside a scenario"})
+		}
+		return fr.m.tsSetup
+	}
+	ptrArg := func(m *Machine, v value) *value {
+		it, ok := v.(iface)
+		if !ok {
+			panic(unsupported{"vrtShared: not an interface value"})
+		}
+		p, ok := it.v.(*value)
+		if !ok || p == nil {
+			panic(unsupported{fmt.Sprintf("vrtShared: argument is not a non-nil pointer (%T)", it.v)})
+		}
+		return p
+	}
+	intr["vrtShared"] = func(fr *frame, a []value) value {
+		s := setup(fr)
+		for i, x := range a[0].([]value) {
+			s.registerCell(fr.m, ptrArg(fr.m, x), fmt.Sprintf("sh%d", len(s.cells)+i))
+		}
+		return nil
+	}
+	intr["vrtSharedSlice"] = func(fr *frame, a []value) value {
+		s := setup(fr)
+		sl, ok := a[0].(iface).v.([]value)
+		if !ok {
+			panic(unsupported{"vrtSharedSlice: not a slice"})
+		}
+		for i := range sl {
+			s.registerCell(fr.m, &sl[i], fmt.Sprintf("sl%d_%d", len(s.cells), i))
+		}
+		return nil
+	}
+	intr["vrtSharedSymbolic"] = func(fr *frame, a []value) value {
+		s := setup(fr)
+		for i, x := range a[0].([]value) {
+			p := ptrArg(fr.m, x)
+			s.registerCell(fr.m, p, fmt.Sprintf("sym%d", len(s.cells)+i))
+			if ci, ok := s.cellOf[p]; ok {
+				ci.symInit = true
+			}
+		}
+		return nil
+	}
+	intr["vrtRacy"] = func(fr *frame, a []value) value {
+		s := setup(fr)
+		for _, x := range a[0].([]value) {
+			p := ptrArg(fr.m, x)
+			s.racy[p] = true
+			s.registerCell(fr.m, p, fmt.Sprintf("racy%d", len(s.cells)))
+		}
+		return nil
+	}
+	intr["vrtTokens"] = func(fr *frame, a []value) value {
+		s := setup(fr)
+		for _, x := range a[0].([]value) {
+			found := false
+			for _, tv := range s.tokens {
+				if eq, ok := plainEqualDeep(tv, x); ok && eq {
+					found = true
+				}
+			}
+			if !found {
+				s.tokens = append(s.tokens, x)
+			}
+		}
+		return nil
+	}
+	intr["vrtThread"] = func(fr *frame, a []value) value {
+		s := setup(fr)
+		s.threads = append(s.threads, tsThreadDecl{name: concreteString(a[0]), fn: a[1]})
+		return nil
+	}
+	intr["vrtSafety"] = func(fr *frame, a []value) value {
+		s := setup(fr)
+		s.safety = append(s.safety, tsProp{name: concreteString(a[0]), fn: a[1]})
+		return nil
+	}
+	intr["vrtFinal"] = func(fr *frame, a []value) value {
+		s := setup(fr)
+		s.final = append(s.final, tsProp{name: concreteString(a[0]), fn: a[1]})
+		return nil
+	}
+	intr["vrtRedirect"] = func(fr *frame, a []value) value {
+		setup(fr)
+		if fr.m.redirects == nil {
+			fr.m.redirects = map[string]value{}
+		}
+		fn := a[1].(iface).v
+		fr.m.redirects[concreteString(a[0])] = fn
+		return nil
+	}
+	intr["vrtVisible"] = func(fr *frame, a []value) value { return nil }
+	intr["vrtSharedChan"] = func(fr *frame, a []value) value {
+		s := setup(fr)
+		ch, ok := a[0].(iface).v.(*vchan)
+		if !ok || ch == nil {
+			panic(unsupported{"vrtSharedChan: not a channel"})
+		}
+		ch.closedCell = ch.closed
+		s.registerCell(fr.m, &ch.closedCell, fmt.Sprintf("chan%d_closed", len(s.cells)))
+		ch.shared = true
+		return nil
+	}
 	p.prefixExternals = append(p.prefixExternals, prefixExt{prefix: p.TargetMod, fn: func(name string) externalFn {
 		i := strings.LastIndex(name, ".")
 		if i < 0 {
@@ -196,6 +302,22 @@ func registerSync(p *Program) {
 	ext := p.externals
 	lock := func(fr *frame, a []value) value {
 		m := fr.m
+		if m.seg != nil {
+			cell := firstScalarCell(m.nonNil(a[0]))
+			if cell == nil {
+				panic(unsupported{"mutex without a scalar cell"})
+			}
+			free := m.equalsV(nil, *cell, zeroLike(*cell))
+			if !m.decide(free, "mutex-free") {
+				if m.seg.holding > 0 {
+					panic(unsupported{"blocking Lock inside a lock region"})
+				}
+				panic(blockedSignal{"Mutex.Lock"})
+			}
+			*cell = oneLike(*cell)
+			m.seg.holding++
+			return nil
+		}
 		s := m.mutex(a[0].(*value))
 		if s.writer && s.owner == m.cur {
 			panic(pathEnd{"deadlock", "self-deadlock: goroutine locks a sync.Mutex it already holds" + callerInfo(fr.caller)})
@@ -207,6 +329,18 @@ func registerSync(p *Program) {
 	}
 	unlock := func(fr *frame, a []value) value {
 		m := fr.m
+		if m.seg != nil {
+			cell := firstScalarCell(m.nonNil(a[0]))
+			held := m.notV(m.equalsV(nil, *cell, zeroLike(*cell)))
+			if !m.decide(held, "mutex-held") {
+				panic(pathEnd{"fatal", "sync: unlock of unlocked mutex"})
+			}
+			*cell = zeroLike(*cell)
+			if m.seg.holding > 0 {
+				m.seg.holding--
+			}
+			return nil
+		}
 		s := m.mutex(a[0].(*value))
 		if !s.writer {
 			panic(pathEnd{"fatal", "sync: unlock of unlocked mutex"})
@@ -518,6 +652,25 @@ func registerSync(p *Program) {
 	}
 }
 
+func zeroLike(v value) value {
+	k, _ := kindOf(v)
+	return fromBits(k, 0)
+}
+
+func oneLike(v value) value {
+	k, _ := kindOf(v)
+	return fromBits(k, 1)
+}
+
+// segAtomicCheck: atomic operations in segment mode must target registered cells.
+func (m *Machine) segAtomicCheck(p *value) {
+	if m.seg != nil && !m.seg.concrete {
+		if _, ok := m.seg.cellOf[p]; !ok && !m.seg.fresh[p] {
+			panic(pathEnd{"escape", "atomic operation on memory that is not registered shared state"})
+		}
+	}
+}
+
 func (m *Machine) nonNil(v value) *value {
 	p, ok := v.(*value)
 	if !ok {
@@ -529,6 +682,9 @@ func (m *Machine) nonNil(v value) *value {
 	}
 	if p == nil {
 		m.rtPanic("invalid memory address or nil pointer dereference")
+	}
+	if m.seg != nil && m.inAtomic {
+		m.segAtomicCheck(p)
 	}
 	return p
 }
